@@ -294,7 +294,7 @@ fn store_term(wr: &Written, w: &World, types: &[TypeName], ranks: &Ranks) -> Str
 // ---------------------------------------------------------------- stream 0
 
 fn stream_toy(run: &mut Run, w: &World, types: &[TypeName]) {
-    let count = run.args.count(260, 2600);
+    let count = run.args.count(260, 1800);
     for i in 0..count {
         let mut rng = Rng::for_case(run.args.seed, 0, i);
         let hostile = i % 3 != 0;
@@ -402,7 +402,7 @@ fn enc(v: Value) -> Vec<u8> {
 
 fn stream_issue(run: &mut Run, w: &World) {
     use radicle::cob::issue::{Issue, TYPENAME};
-    let count = run.args.count(60, 600);
+    let count = run.args.count(60, 400);
     for i in 0..count {
         let id0 = format!("1:{i}");
         if !run.args.wants(&id0) {
@@ -423,19 +423,28 @@ fn stream_issue(run: &mut Run, w: &World) {
                 actions.push(json!({"type": "edit", "title": "t0"}));
             } else {
                 let n_act = if rng.chance(1, 3) { 2 } else { 1 };
+                let mut pushed = false;
                 for a in 0..n_act {
                     // only ancestors' comments may be referenced (they exist when the op is applied)
                     let anc: Vec<Oid> = ancestors(&shape, k).into_iter().filter(|j| comments.contains(&oids[*j])).map(|j| oids[j]).collect();
                     let target = *rng.pick(&anc);
-                    let kind = rng.below(7);
+                    // an op may push its id on the thread timeline once only
+                    // (`debug_assert!(!thread.timeline.contains(&id))` in radicle::cob::thread)
+                    let mut kind = rng.below(7);
+                    if matches!(kind, 0 | 4 | 5) {
+                        if pushed {
+                            kind = 1 + rng.below(3);
+                        }
+                        pushed = true;
+                    }
                     kinds.push(kind);
                     actions.push(match kind {
-                        0 if a == 0 => json!({"type": "comment", "body": format!("c{k}"), "replyTo": target.to_string()}),
+                        0 => json!({"type": "comment", "body": format!("c{k}"), "replyTo": target.to_string()}),
                         1 => json!({"type": "edit", "title": format!("title {k}.{a}")}),
                         2 => json!({"type": "lifecycle", "state": if rng.bool() { json!({"status": "open"}) } else { json!({"status": "closed", "reason": "solved"}) }}),
                         3 => json!({"type": "label", "labels": [format!("l{}", rng.below(3))]}),
                         4 => json!({"type": "comment.react", "id": target.to_string(), "reaction": "👍", "active": rng.bool()}),
-                        5 if a == 0 => json!({"type": "comment.edit", "id": target.to_string(), "body": format!("e{k}"), "embeds": []}),
+                        5 => json!({"type": "comment.edit", "id": target.to_string(), "body": format!("e{k}"), "embeds": []}),
                         _ => json!({"type": "assign", "assignees": []}),
                     });
                 }
